@@ -177,8 +177,8 @@ def _check_lift(case):
     return None
 
 
-ELEMENTWISE = ['+', '-', '*', '/', '&', '=', '<', 'ABS', 'ROUND', 'IF', 'CONCATENATE', 'LEFT', 'MOD', 'POWER']
-ARITY = {'ABS': (1,), 'ROUND': (2,), 'IF': (3,), 'CONCATENATE': (1, 2, 3, 5, 31, 32, 33, 40), 'LEFT': (2,), 'MOD': (2,), 'POWER': (2,)}
+ELEMENTWISE = ['+', '-', '*', '/', '&', '=', '<', 'ABS', 'ROUND', 'IF', 'CONCATENATE', 'LEFT', 'MOD', 'POWER', 'DATE', 'DAY', 'WEEKDAY']
+ARITY = {'DATE': (3,), 'DAY': (1,), 'WEEKDAY': (1, 2), 'ABS': (1,), 'ROUND': (2,), 'IF': (3,), 'CONCATENATE': (1, 2, 3, 5, 31, 32, 33, 40), 'LEFT': (2,), 'MOD': (2,), 'POWER': (2,)}
 
 
 def _lift_cases(tier, rng):
@@ -200,10 +200,24 @@ def _lift_cases(tier, rng):
     return out
 
 
+def _has_plain_text(case):
+    name, shapes, seed = case
+    for k, sh_ in enumerate(shapes):
+        for v in _mkvals(sh_, seed + 31 * k).ravel().tolist():
+            if isinstance(v, str) and type(v) is str:
+                try:
+                    float(v)
+                except ValueError:
+                    return True
+    return False
+
+
 def _classify_lift(case, detail):
     name, shapes, seed = case
     if len(shapes) >= 32:
         return 'KF-C05-2'
+    if name in ('DAY', 'WEEKDAY', 'DATE') and 'gives shape (1, 1)' in detail and _has_plain_text(case):
+        return 'KF-C05-3'
     return None
 
 
@@ -213,7 +227,7 @@ BOUNDED = [
           '(Array.reshape, Ranges.set_value with an Array, a cell formula stored into a range)',
           classify=_classify_fit, exhaustive=True, max_report=400),
     Stage('B2:lifting-the-scalar-rule-element-wise', 'C05', _lift_cases, _check_lift,
-          '14 operators / element-wise functions; all broadcastable shape combinations of 8 shapes for arity <= 3; CONCATENATE with '
+          '17 operators / element-wise functions (incl. kernels that signal errors by exception); all broadcastable shape combinations of 8 shapes for arity <= 3; CONCATENATE with '
           '1..40 arguments (both sides of the 32-argument split); element values of every kind; compared position by position with the '
           'same function applied to the broadcast scalars', classify=_classify_lift, max_report=400),
 ]
